@@ -75,6 +75,15 @@ def run(ctx):
         if rng.random() < 0.1:
             src += "\nfind all " + rng.choice(regexes)
         cases.append({"src": src, "texts": [ml_text(rng) for _ in range(6)]})
+    # bindings made on a path that is tried LAST and fails (last alternative, taking path of a lazy optional or loop), then a match somewhere else in the
+    # text that does not bind the name: a variable of a match comes from that match's own path and text
+    from props import C02
+    stale = []
+    for a, b, c in (("'a'", "'b'", "'c'"), ("letter", "digit", "'-'"), ("'ab'", "'c'", "'b'"), ("any", "'b'", "'c'")):
+        for form in ("find all %(c)s or ((%(a)s = x) %(b)s)", "find all (at most 1 (%(a)s = x) fewest) %(b)s", "find all (at least 0 (%(a)s = x) fewest) %(c)s",
+                     "find all (%(c)s or ((%(a)s = x) %(b)s)) maybe x", "find all %(c)s or ({(%(a)s = x) %(b)s} = s)", "find all (%(c)s = y) or ((%(a)s = x) (%(b)s = y) 'q')"):
+            stale.append({"src": form % dict(a=a, b=b, c=c), "texts": ["ax c", "ac b", "a c", "a\nc", "ab c", "a-b 1c", "abx c b", "ac", "abc", "a1 - c", "ab- b-c"]})
+    cases += stale + C02.abandoned_cases(rng, 60 if quick else 1500)
     gres, dis, stats = corr_core.run_core(cases, shards=12, spec=True)
     report_core_disagreements(ctx, cases, dis, in_scope=in_scope_core, known=known_core)
     ev = 0
